@@ -313,9 +313,10 @@ def lex_continue(
     # Since Numeric objects can begin with a reserved
     # character, the reserved characters may split up
     # the lexeme.
-    if (
-        char in g.numeric_start_chars
-        and Token(char + next_char, grammar=g).is_numeric()
+    if char in g.numeric_start_chars and (
+        Token(char + next_char, grammar=g).is_numeric()
+        # A real number may have no integer part: "+.5"
+        or (next_char == "." and Token(char + ".0", grammar=g).is_numeric())
     ):
         return True
 
